@@ -185,6 +185,8 @@ def signature(rec, step, clauses, cls):
         c = "writes=%s,%s,object=%s" % (handle_writes_class(rec["done"], step), cls.get("kind"), object_use(rec, step))
     else:
         c = "file=%s,chunk=%s,%s" % (cls.get("pre"), cls.get("compat"), cls.get("kind"))
+    if any(t >= rc.BIG_TOK for t in e["chunk"]["rows"]):
+        c += ",big_chunk"                 # more rows than one 16 MiB I/O block holds
     return "%s|%s|%s" % (entry, clauses[0], c)
 
 
@@ -571,6 +573,10 @@ def run(ctx):
         "bare recfile.Recfile handles: only calls that need no header (matching chunks, no append to a missing file, plain "
         "path names); the caller-supplied dtype / delimiter are the ones the file was created with",
         "opening for reading ('r') something that is not a record file: unconstrained",
+        "a BIG chunk is one block token of weight BigW (RecStore!RowCount): the harness identifies the block bit for bit "
+        "as a whole and re-encodes an observed count of q blocks + r rows as q*BigW + r (r < BigW, else no count); blocks "
+        "are written in binary form only; partial reads are not asked of files holding a block",
+        "a handle released without close() (del + gc.collect()) is judged exactly like a closed one",
         "crash points are not modelled",
     ]
     ctx.trusted_base.append("recstore_common: token <-> row bytes tables, descr/header id projection, fresh-reader observation")
